@@ -365,7 +365,14 @@ def tr_int(n, cx):
             e = "(let %s := %s in %s)" % (nm, v, e)
         return e
     if k == "UnaryExprOrTypeTraitExpr":
-        # sizeof: value only available through the type; only support sizeof(struct X) via table
+        # sizeof of an array-typed expression (e.g. sizeof(dirc->records)): element size * length, read off the type
+        if n.get("name") == "sizeof":
+            inner = [c for c in n.get("inner", []) if isinstance(c, dict) and c]
+            qt = (strip(inner[0])["type"]["qualType"] if inner else n.get("argType", {}).get("qualType", ""))
+            m = re.match(r"^(?:const )?(uint8_t|int8_t|char|unsigned char|signed char|uint16_t|int16_t|uint32_t|int32_t)\s*\[(\d+)\]$", qt)
+            if m:
+                esz = {"uint16_t": 2, "int16_t": 2, "uint32_t": 4, "int32_t": 4}.get(m.group(1), 1)
+                return "(%d)" % (esz * int(m.group(2)))
         raise Unsupported("sizeof in %s" % cx.fname)
     raise Unsupported("expression %s in %s" % (k, cx.fname))
 
@@ -468,6 +475,11 @@ def assigned_vars(stmts, cx):
                 add(array_parts(lhs, cx)[0])
             else:
                 add(lvalue_name(lhs, cx))
+        elif k == "CallExpr" and strip(n["inner"][0]).get("referencedDecl", {}).get("name") in ("swLong", "swShort", "memcpy"):
+            try:
+                add(ptr_plus(n["inner"][1], Ctx(cx.fname))[0])
+            except Unsupported:
+                pass
         else:
             for c in n.get("inner", []):
                 if isinstance(c, dict) and c:
@@ -565,6 +577,27 @@ class FnTr:
         kd = n.get("kind")
         if is_log_call(n) or kd == "NullStmt":
             return k()
+        if kd == "CallExpr":
+            callee = strip(n["inner"][0])
+            args = n["inner"][1:]
+            nm = callee.get("referencedDecl", {}).get("name") if callee.get("kind") == "DeclRefExpr" else None
+            if nm in ("swLong", "swShort"):
+                # big-endian store into a byte buffer: buf := put_be32 buf idx (value mod 2^32)
+                arr, idx = ptr_plus(args[0], cx)
+                v = tr_int(args[1], cx)
+                cx.arrays.add(arr)
+                t = "(%s %s %s %s)" % ("put_be32" if nm == "swLong" else "put_be16", cx.use(arr), idx, v)
+                cx.bound.add(arr)
+                return "let %s := %s in\n%s" % (arr, t, k())
+            if nm == "memcpy":
+                darr, didx = ptr_plus(args[0], cx)
+                sarr, sidx = ptr_plus(args[1], cx)
+                cnt = tr_int(args[2], cx)
+                cx.arrays.add(darr)
+                cx.arrays.add(sarr)
+                t = "(blit %s %s (subZ %s %s %s))" % (cx.use(darr), didx, cx.use(sarr), sidx, cnt)
+                cx.bound.add(darr)
+                return "let %s := %s in\n%s" % (darr, t, k())
         if kd == "BinaryOperator" and n["opcode"] == "=":
             lhs, rhs = n["inner"]
             # chained assignment a = b = e
@@ -774,7 +807,7 @@ def load_enums():
         ENUMS[m.group(1)] = str(eval(v))
 
 
-def translate_function(path, fn, gname=None, extra=(), arrays=(), pure=True, strings=()):
+def translate_function(path, fn, gname=None, extra=(), arrays=(), pure=True, strings=(), extra_outs=()):
     d = find_function(path, fn, extra)
     cx = Ctx(fn)
     params = [c for c in d["inner"] if c.get("kind") == "ParmVarDecl"]
@@ -805,6 +838,9 @@ def translate_function(path, fn, gname=None, extra=(), arrays=(), pure=True, str
     for p, t in pnames:
         if t[0] == "p" and (p + "_v") in av:
             outs.append(p + "_v")
+    # buffers and struct fields written through pointer parameters that the caller wants back (codecs)
+    for o in extra_outs:
+        outs.append(o)
     cx.outs = outs
     tr = FnTr(cx, ret)
     # does the function contain a loop? (needed before generating returns)
@@ -837,7 +873,7 @@ def translate_function(path, fn, gname=None, extra=(), arrays=(), pure=True, str
     if cx.has_loop:
         PURE_CALLS.pop(fn)
     return {"name": gname, "c_name": fn, "params": plist, "arrays": sorted(cx.arrays & set(plist)), "loop": cx.has_loop,
-            "outs": outs, "ret": rty, "text": text}
+            "outs": outs, "list_outs": [o for o in outs if o in cx.arrays], "ret": rty, "text": text}
 
 
 # ------------------------------------------------------------------ slices
@@ -1255,6 +1291,10 @@ def main():
     attempt("isSectNumValid", lambda: translate_function(src("adf_vol.c"), "isSectNumValid"))
     attempt("adfDevType", lambda: translate_function(src("adf_dev.c"), "adfDevType"))
     attempt("adfNormalSum", lambda: translate_function(src("adf_raw.c"), "adfNormalSum"))
+    attempt("adfPutCacheEntry", lambda: translate_function(src("adf_cache.c"), "adfPutCacheEntry", extra_outs=("dirc_records",)))
+    attempt("adfGetCacheEntry", lambda: translate_function(src("adf_cache.c"), "adfGetCacheEntry",
+            extra_outs=("cEntry_header", "cEntry_size", "cEntry_protect", "cEntry_days", "cEntry_mins", "cEntry_ticks", "cEntry_type",
+                        "cEntry_nLen", "cEntry_name", "cEntry_cLen", "cEntry_comm")))
     attempt("adfBootSum", lambda: translate_function(src("adf_raw.c"), "adfBootSum"))
     # --- I/O funnel guards
     attempt("adfReadBlock", lambda: translate_guard(src("adf_vol.c"), "adfReadBlock", "g_adfReadBlock", "adfReadBlockDev"))
@@ -1369,7 +1409,8 @@ def main():
                 pat = vs[0]
                 for v in vs[1:]:
                     pat = "(%s, %s)" % (pat, v)
-                show = " ^ \" \" ^ ".join("zs %s" % v for v in vs)
+                kinds = ([] if r["ret"] in ("void", "slice") else ["z"]) + ["l" if o in r.get("list_outs", []) else "z" for o in r["outs"]]
+                show = " ^ \" \" ^ ".join(("hex_of_bytes (ints_of_zl %s)" if kd_ == "l" else "zs %s") % v for v, kd_ in zip(vs, kinds))
                 if r["loop"]:
                     body = "(match %s with None -> \"outoffuel\" | Some %s -> %s)" % (call, pat, show)
                 else:
